@@ -283,9 +283,77 @@ func runC05(w *World, r *Report, tier string) {
 			}
 		})
 		r.Check(bad == "", "R5", w.funcKey(f), w.pos(f.Pos()), bad, "n is copy(p, …), an inner Read/Write count on p, or 0")
+		// a Read that wraps another Read: the inner error (the end of the stream, a lost connection) reaches the caller,
+		// and a path that reads nothing does not report (0, nil) for ever
+		var inner []*ssa.Call
+		allInstrsH(f, func(in ssa.Instruction) {
+			if c, ok := in.(*ssa.Call); ok && c.Call.IsInvoke() && c.Call.Method.Name() == "Read" && len(c.Call.Args) == 1 && onP(c.Call.Args[0]) {
+				inner = append(inner, c)
+			}
+		})
+		if len(inner) == 0 && (w.funcKey(f) == "xmpp.(*streamLogger).Read" || w.funcKey(f) == "xmpp.(*XMPPTransport).Read") {
+			r.Fail("R5", w.funcKey(f)+"#inner-error", w.pos(f.Pos()), "the wrapper never reads from what it wraps: it reports (0, nil) for ever and the receive loop never sees data or the end of the stream")
+		}
+		if len(inner) == 1 {
+			ic := inner[0]
+			badW := ""
+			var ev ssa.Value
+			for _, rf := range *ic.Referrers() {
+				if ex, ok := rf.(*ssa.Extract); ok && ex.Index == 1 {
+					ev = ex
+				}
+			}
+			if ev == nil {
+				badW = "the error of the wrapped Read is discarded"
+			} else {
+				walkPaths(after(ic), nil, nil, 20000, func(path []ssa.Instruction, end pathEnd) {
+					ret, ok := path[len(path)-1].(*ssa.Return)
+					if !ok {
+						return
+					}
+					res := rres(path, ret)[1]
+					switch {
+					case res == ev:
+					case !isNilConst(res) && pathAsserts(path, func(c ssa.Value, truth bool) bool { return assertsNonNil(c, truth, res) }):
+						// another failure is reported instead
+					case pathAsserts(path, func(c ssa.Value, truth bool) bool { return assertsNil(c, truth, ev) }):
+						// the read succeeded
+					default:
+						badW = "a path from the wrapped Read to the return at " + w.ipos(ret) + " neither returns its error nor has found it nil"
+					}
+				})
+			}
+			if badW == "" {
+				isIC := func(in ssa.Instruction) bool { return in == ssa.Instruction(ic) }
+				walkPaths(entryLoc(f), nil, nil, 20000, func(path []ssa.Instruction, end pathEnd) {
+					ret, ok := path[len(path)-1].(*ssa.Return)
+					if !ok || countOn(path, isIC) > 0 {
+						return
+					}
+					// no inner read on this path: it must report an error (nothing to read from), not (0, nil)
+					res := rres(path, ret)[1]
+					if isNilConst(res) {
+						badW = "a path of Read returns without reading and without an error (at " + w.ipos(ret) + "): the decoder spins on (0, nil)"
+					}
+				})
+			}
+			r.Check(badW == "", "R5", w.funcKey(f)+"#inner-error", w.ipos(ic), "the wrapped Read's outcome does not reach the caller: "+badW+" — a closed or lost connection is never noticed by the receive loop", "inner Read on every successful path; its error returned")
+		}
 	}
 	if nRead < 3 {
 		r.Undecided("R5", "module#Read-methods", "-", fmt.Sprintf("%d Read methods found, 3 confirmed by hand", nRead))
+	}
+
+	// ---- R7 check-then-use contradiction
+	r.Rule("R7", "no value is invoked, dereferenced or indexed on a path that has just found it to be nil (and has not assigned it since): the receive path never panics on a nil transport, handler or queue")
+	{
+		uses := w.nilUses(w.LibFuncs())
+		for _, u := range uses {
+			r.Fail("R7", nilUseCons(w, u), w.ipos(u.use), "the branch at "+w.ipos(u.check)+" has found the value nil, and this path goes on to a "+u.what+": a nil pointer panic")
+		}
+		if len(uses) == 0 {
+			r.Ok("R7", "module#nil-then-use", fmt.Sprintf("%d library functions, no use of a value on the nil edge of its own test", len(w.LibFuncs())))
+		}
 	}
 
 	// ---- R6 value receivers losing updates
